@@ -163,7 +163,7 @@ impl VM {
                 Op::Element => self.op_element()?,
                 Op::Index => self.op_index(!self.runtime.strict, pos)?,
                 Op::SafeIndex => self.op_index(true, pos)?,
-                Op::Exist => self.op_exist(pos)?,
+                Op::Exist => self.op_exist(env, pos)?,
                 Op::Cp => self.op_copy(pos, env)?,
                 //FIXME(jwall): Should this take a user provided message?
                 Op::Bang => self.op_bang()?,
@@ -1002,9 +1002,26 @@ impl VM {
         ))
     }
 
-    fn op_exist(&mut self, pos: Position) -> Result<(), Error> {
+    fn op_exist<O, E>(
+        &mut self,
+        env: &RefCell<Environment<O, E>>,
+        pos: Position,
+    ) -> Result<(), Error>
+    where
+        O: std::io::Write + Clone,
+        E: std::io::Write + Clone,
+    {
         let (right, right_pos) = self.pop()?;
         let (left, left_pos) = self.pop()?;
+        // A bareword is the name of a field if the subject is a tuple and
+        // the name of a binding otherwise.
+        let right = match right.as_ref() {
+            S(name) => match left.as_ref() {
+                C(Tuple(_, _)) => Rc::new(P(Str(name.clone()))),
+                _ => self.get_binding(name, env, &right_pos)?.0,
+            },
+            _ => right,
+        };
         match *left.as_ref() {
             C(Tuple(ref flds, _)) => {
                 if let &P(Str(ref name)) = right.as_ref() {
